@@ -186,3 +186,27 @@ func GenCase(r *rand.Rand, n, nTrips int, conflicts bool) Case {
 	}
 	return Case{Msg: b, Pool: "generated"}
 }
+
+// WideCase builds one conflict-free message of nTrips trip updates (distinct trip ids of the NYCT shape, no NYCT data) and
+// nVeh vehicle positions without any vehicle descriptor, each serving one of the trips: more trips and vehicles than any
+// fixed-size table or batch a parser might use.
+func WideCase(nTrips, nVeh int) Case {
+	var ents []any
+	td := func(k int) TD {
+		return TD{ID: some(1000000 + 100*k), Route: none(), Dir: none(), St: abs.None[ST](), Sd: abs.None[SD](), Sr: none()}
+	}
+	for k := 0; k < nTrips; k++ {
+		e := tuJSON{K: "tu", Trip: abs.Some(td(k)), Veh: abs.None[VD]()}
+		e.Stus = append(e.Stus, STU{Seq: some(1), Stop: some(1 + k%20), Arr: abs.None[EV](), Dep: abs.None[EV](), Sr: none()})
+		ents = append(ents, e)
+		if k < nVeh {
+			ents = append(ents, vpJSON{K: "vp", Trip: abs.Some(td(k)), Veh: abs.None[VD](), Pos: abs.None[POS](), Css: none(), Stop: some(1 + k%20), Status: none(),
+				Ts: none(), Cong: none(), Occ: none(), OccPct: none()})
+		}
+	}
+	b, err := json.Marshal(map[string]any{"ts": some(3), "ents": ents})
+	if err != nil {
+		panic(err)
+	}
+	return Case{Msg: b, Pool: "generated-wide"}
+}
